@@ -26,3 +26,53 @@ def classes(tag=None):
         if tag is None or tag in tags:
             out.append(c)
     return types, out
+
+
+# ---------------------------------------------------------------- generated pair corpus
+from . import paircorpus
+_pairs = {}
+
+
+def pairs(tier, seed, sample=None, with_singles=True):
+    """-> (xml_dir, types, classes) of the mechanically generated pair corpus for this run"""
+    key = (tier, seed, sample, with_singles)
+    if key not in _pairs:
+        specs = paircorpus.select(tier, seed, sample, with_singles)
+        d = paircorpus.make(specs)
+        types, cls = Tree(d).schema()
+        _pairs[key] = (d, types, cls)
+    return _pairs[key]
+
+
+def closure(types, instrs, acc=None):
+    """the part of the type table a class actually references (job arguments stay small)"""
+    acc = {} if acc is None else acc
+
+    def visit_type(t):
+        if t[0] == "enum" and t[1] not in acc:
+            acc[t[1]] = types[t[1]]
+        elif t[0] == "struct" and t[1] not in acc:
+            acc[t[1]] = types[t[1]]
+            closure(types, types[t[1]][1], acc)
+
+    for ins in instrs:
+        if ins[0] == "field":
+            visit_type(ins[2])
+        elif ins[0] == "array":
+            visit_type(ins[2])
+        elif ins[0] == "dummy":
+            visit_type(ins[1])
+        elif ins[0] == "chunked":
+            closure(types, ins[1], acc)
+        elif ins[0] == "switch":
+            for c in ins[2]:
+                closure(types, c[3], acc)
+    return acc
+
+
+def seed():
+    import os
+    try:
+        return int(os.environ.get("VERIF_SEED", "0") or 0)
+    except ValueError:
+        return 0
